@@ -434,12 +434,17 @@ func c16Data(r *rand.Rand) val.V {
 		{K: "i64", V: val.Int("int64", []int64{math.MaxInt64, math.MinInt64, 1<<53 + 1, 0, -7}[r.Intn(5)])}, {K: "i32", V: val.Int("int32", int64(int32(r.Uint32())))},
 		{K: "f", V: val.F64([]float64{0.1, 0.3, 1e22, -0.0, 2.5, 123456.789, 5e-324}[r.Intn(7)])},
 		{K: "t", V: val.Time(int64(r.Intn(2e9)), int64(r.Intn(1e9)), []string{"UTC", "Asia/Shanghai", "Local"}[r.Intn(3)])},
+		// long names that differ only in their last character (and one that is a proper prefix of them)
+		{K: longKeyA, V: val.Int("int", 1)}, {K: longKeyB, V: val.Str("bee")}, {K: longKeyA[:299], V: val.Int("int", 299)},
+		{K: "lk", V: val.Map(val.KV{K: longKeyA, V: val.Int("int", 3)}, val.KV{K: longKeyB, V: val.Int("int", 4)})},
 		{K: "l", V: val.List(val.Int("int", 1), val.Str("x"))}, {K: "ss", V: val.Typed("strs", val.Str("p"), val.Str("q"))}, {K: "d", V: val.Dec("1.50")}, {K: "fn", V: val.Fn("id")},
 	}
 	return val.Map(kv...)
 }
 
-var c16Keys = []string{"Qty", "Price", "Note", "City", "Floor", "Name", "Age", "p", "a", "b", "c", "k", "z", "name", "x1", "len", "max", "now", "A", "S", "F", "M", "P", "Any", "Nil", "N", "T", "priv", "Zz", "missing", "tm", "st", "np", "$v"}
+var longKeyA, longKeyB = strings.Repeat("k", 299) + "a", strings.Repeat("k", 299) + "b"
+
+var c16Keys = []string{longKeyA, longKeyB, longKeyA[:299], "Qty", "Price", "Note", "City", "Floor", "Name", "Age", "p", "a", "b", "c", "k", "z", "name", "x1", "len", "max", "now", "A", "S", "F", "M", "P", "Any", "Nil", "N", "T", "priv", "Zz", "missing", "tm", "st", "np", "$v"}
 
 // FollowCase: a name denotes the entry of the data map as it is now - whatever earlier evaluations on the same runner
 // read or assigned, and however the host changed the map since (another map, a single entry, its own map directly).
